@@ -150,6 +150,35 @@ func runC05(c *Ctx) {
 	}
 
 	// R3 delete-if-unchanged
+	// R2 (continued): an acknowledged Put has written
+	{
+		f := c.Fn("(*" + vsT + ").Put")
+		info := f.Info()
+		cf := f.CFG()
+		puts := dsCalls(f, "Put")
+		for i, ret := range cf.Returns() {
+			if len(ret.Results) != 1 || len(puts) != 1 {
+				continue
+			}
+			e := eng.Unparen(ret.Results[0])
+			ok, why := false, "returns "+short(e)
+			switch {
+			case e == ast.Expr(puts[0]):
+				ok = true // the write's own result
+			case isNil(info, e):
+				ok, _ = cf.Guarded(cf.LocOf(ret), func(ft eng.Fact) bool {
+					call, isNilE, isErr := ft.ErrCall()
+					return isErr && isNilE && call == puts[0]
+				})
+				why = "`return nil` is reachable without a successful datastore write"
+			default:
+				ok = knownNonNilError(cf, ret, e)
+				why = "a return whose error may be nil is reachable without the datastore write: " + short(e)
+			}
+			c.Check(K(f.Name, "return#"+itoa(i)+" acknowledges only a write"), ret.Pos(), ok, "Put reports success only when the record was written (an acknowledged put is stored and stamped now)", why)
+		}
+	}
+
 	c.Rule("R3")
 	{
 		f := c.Fn("(*" + vsT + ").discardIfUnchanged")
@@ -443,6 +472,11 @@ func runC05(c *Ctx) {
 				return isCL && len(cl.Elts) == 2 && eng.IsObj(info, cl.Elts[0], value) && isGetterOf(info, cl.Elts[1], recGetVal, old)
 			})
 			c.Check(K(f.Name, "local store behind Select"), call.Pos(), okS, "PutValue is refused when a different, better value is stored", "store reachable without `old == nil || equal || Select(key,{value, old}) == 0`")
+			// the network phase lies behind the success of the local store (whatever the error test looks like)
+			for _, gcp := range f.Calls("(*" + recv + ").GetClosestPeers") {
+				gN, _ := cf.Guarded(cf.LocOf(gcp), func(ft eng.Fact) bool { return ft.ErrOf(true, "(*"+recv+").putLocal") })
+				c.Check(K(f.Name, "network only after the store accepted"), gcp.Pos(), gN, "every refusal of the local store (ErrOldRecord included) ends PutValue before anything is sent", "the lookup is not on the nil-error edge of putLocal")
+			}
 			// failure of the local store ends the operation with that error
 			for _, ed := range errEdges(cf, false, "(*"+recv+").putLocal") {
 				ok, w := cf.MustPass(ed.Start(), eng.LocSet(locsOf(cf, f.Calls("(*"+recv+").GetClosestPeers"))...), func(eng.Loc) bool { return false })
@@ -604,4 +638,28 @@ func lockVarID(f *eng.Func, n ast.Node, key eng.Object) string {
 		return true
 	})
 	return id
+}
+
+// knownNonNilError: the returned expression is certainly a non-nil error: a fresh error
+// (fmt.Errorf / errors.New), a package-level sentinel, or a variable tested non-nil on every
+// path to the return.
+func knownNonNilError(cf *eng.CFG, ret *ast.ReturnStmt, e ast.Expr) bool {
+	info := cf.F.Info()
+	e = eng.Unparen(e)
+	if call, ok := e.(*ast.CallExpr); ok {
+		return eng.NameIn(eng.CalleeName(info, call), "fmt.Errorf", "errors.New")
+	}
+	o := eng.ObjOf(info, e)
+	v, isVar := o.(*eng.Var)
+	if !isVar {
+		return false
+	}
+	if v.Pkg() != nil && v.Parent() == v.Pkg().Scope() && v.Type().String() == "error" {
+		return true // sentinel such as ErrOldRecord
+	}
+	g, _ := cf.Guarded(cf.LocOf(ret), func(ft eng.Fact) bool {
+		x, isNilF, ok := ft.NilFact()
+		return ok && !isNilF && eng.IsObj(info, x, o)
+	})
+	return g
 }
